@@ -36,23 +36,31 @@ Definition lrs_ok (w : world) (t : list (list (list Q))) : bool :=
 Definition fresh_okb (s : store) : bool :=
   forallb (fun l => N.ltb (rd s l) (s_fresh s)) (nseq 0 (N.to_nat (s_next s))).
 
-Fixpoint ccheck_steps (c : cworld) (ops : list cop) (os : list obs) (ls : list (list (list (list Q)))) (m : PositiveMap.t N) : bool :=
+(* the observation of a state may be omitted ([None]: the state after an operation inside a run of consecutive learn / act
+   operations; the model still performs the step, the state at the end of the run is compared) *)
+Fixpoint ccheck_steps (c : cworld) (ops : list cop) (os : list (option obs)) (ls : list (list (list (list Q)))) (m : PositiveMap.t N) : bool :=
   match ops, os, ls with
   | [], [], [] => true
   | o :: r, ob :: obr, lt :: lr =>
       if pre_ok c o then
         let c' := cstep c o in
-        match state_ok (cw c') ob m with
-        | Some m' => if lrs_ok (cw c') lt then ccheck_steps c' r obr lr m' else false
-        | None => false
-        end
+        if lrs_ok (cw c') lt then
+          match ob with
+          | None => ccheck_steps c' r obr lr m
+          | Some ob' =>
+              match state_ok (cw c') ob' m with
+              | Some m' => ccheck_steps c' r obr lr m'
+              | None => false
+              end
+          end
+        else false
       else false
   | _, _, _ => false
   end.
 
-Definition ccheck_run (w : world) (ops : list cop) (os : list obs) (ls : list (list (list (list Q)))) (nets opts : list str) : bool :=
+Definition ccheck_run (w : world) (ops : list cop) (os : list (option obs)) (ls : list (list (list (list Q)))) (nets opts : list str) : bool :=
   match os, ls with
-  | o0 :: r, l0 :: lr =>
+  | Some o0 :: r, l0 :: lr =>
       prefix_ok nets opts && sep_b w && fresh_okb (w_store w) && lrs_ok w l0 &&
       match state_ok w o0 (PositiveMap.empty N) with
       | Some m => ccheck_steps (mkCW w []) ops r lr m
@@ -62,14 +70,18 @@ Definition ccheck_run (w : world) (ops : list cop) (os : list obs) (ls : list (l
   end.
 
 (* index of the first state on which model and implementation disagree (diagnostics only) *)
-Fixpoint cfirst_bad (c : cworld) (ops : list cop) (os : list obs) (m : PositiveMap.t N) (k : nat) : nat :=
+Fixpoint cfirst_bad (c : cworld) (ops : list cop) (os : list (option obs)) (m : PositiveMap.t N) (k : nat) : nat :=
   match ops, os with
   | o :: r, ob :: obr =>
       if pre_ok c o then
         let c' := cstep c o in
-        match state_ok (cw c') ob m with
-        | Some m' => cfirst_bad c' r obr m' (S k)
-        | None => k
+        match ob with
+        | None => cfirst_bad c' r obr m (S k)
+        | Some ob' =>
+            match state_ok (cw c') ob' m with
+            | Some m' => cfirst_bad c' r obr m' (S k)
+            | None => k
+            end
         end
       else (k + 1000)%nat
   | _, _ => 9999%nat
